@@ -113,6 +113,11 @@ func (b *BatchSpec) String() string {
 
 func (b *BatchSpec) Index() *index.Batch {
 	ib := bluge.NewBatch()
+	b.IndexInto(ib)
+	return ib
+}
+
+func (b *BatchSpec) IndexInto(ib *index.Batch) {
 	for _, op := range b.Ops {
 		switch op.Kind {
 		case OpInsert:
@@ -123,7 +128,6 @@ func (b *BatchSpec) Index() *index.Batch {
 			ib.Delete(bluge.Identifier(op.ID))
 		}
 	}
-	return ib
 }
 
 // ---- abstract index ------------------------------------------------------
